@@ -801,7 +801,7 @@ func monitorAdd(res *core.Result, i int, cfg txcache.ConfigSourceMe, specs map[s
 			res.Failf(prop, i, "after AddTx(%s) sender %s holds [%s], expected [%s]", t.hash, sn, strings.Join(after.hashesOf(sn), " "), strings.TrimSpace(hashesStr(e)))
 		}
 	}
-	if evictionRan && !sameHashes(got, exp) {
+	if evictionRan && drops == 0 && !sameHashes(got, exp) {
 		res.Failf("C07", i, "eviction before AddTx(%s): sender %s holds [%s], the documented procedure gives [%s]", t.hash, s, strings.Join(got, " "), strings.TrimSpace(hashesStr(exp)))
 	}
 	if !cfg.EvictionEnabled || !evictionRan {
